@@ -1173,6 +1173,51 @@ class Engine:
             vals[name] = val
         return vals
 
+    def generic_model_for(self, extra, vars_, timeout_ms, seed=7):
+        """like model_for, but every variable is pinned to a pseudo-random 'nice' value where the constraints allow
+        it: z3's own models sit on the boundary of tolerance comparisons (x == y + 1e-18), which floats cannot
+        tell apart, so a counterexample gets a second, generic candidate for the float replay."""
+        import random
+        rnd = random.Random(seed)
+        s = z3.Solver()
+        s.set('timeout', 1500)
+        vs = set(vars_)
+        for e, v, _ in self.pc:
+            s.add(e)
+            vs |= v
+        for x in extra:
+            s.add(x)
+        if str(self._timed(s.check, 'ob_queries')) != 'sat':
+            return None
+        deadline = time.time() + min(20.0, timeout_ms / 1000.0)
+        order = sorted(vs)
+        rnd.shuffle(order)
+        for vi in order:
+            if time.time() > deadline:
+                break
+            if VARS.names[vi].startswith(('sqrt!', 'cos!', 'sin!')):
+                continue
+            for _ in range(3):
+                if vi in VARS.positive:
+                    val = Fraction(rnd.randint(2, 9), rnd.randint(2, 5))
+                else:
+                    val = Fraction(rnd.randint(-12, 12), rnd.randint(2, 7))
+                c = VARS.z3v[vi] == z3.Q(val.numerator, val.denominator)
+                if str(self._timed(lambda: s.check(c), 'ob_queries')) == 'sat':
+                    s.add(c)
+                    break
+        if str(self._timed(s.check, 'ob_queries')) != 'sat':
+            return None
+        m = s.model()
+        vals = {}
+        for i, name in enumerate(VARS.names):
+            v = m.eval(VARS.z3v[i], model_completion=True)
+            try:
+                vals[name] = _z3frac(v)
+            except ValueError:
+                vals[name] = Fraction(1) if i in VARS.positive else Fraction(0)
+        return vals
+
     # exploration ---------------------------------------------------------------------------------
     def explore(self, harness, params, cx_factory):
         global _ENG
@@ -1339,8 +1384,15 @@ class Engine:
                     else:
                         already = any(o['status'] == 'cex' and _base(o['name']) == _base(name) for o in obs)
                         model = None if already else self.model_for([neg], vs, self.ob_timeout_ms)
+                        alt = None
+                        if model is not None:
+                            try:
+                                alt = self.generic_model_for([neg], vs, self.ob_timeout_ms)
+                            except Exception:
+                                alt = None
                         obs.append({'name': name, 'status': 'cex', 'how': 'z3', 'detail': detail,
                                     'model': None if model is None else {k: str(v) for k, v in model.items()},
+                                    'alt_models': [] if alt is None else [{k: str(v) for k, v in alt.items()}],
                                     'nontrivial': True})
         if len(self.path_records) < 3:
             self.path_records.append({
